@@ -143,6 +143,11 @@ CURATED_ERR = [
     ("err-opt-then-err", "s = x? y E\nx = A | @error\ny = B | @error"),
     ("err-left-rec", "s = s A | s @error | B"),
     ("err-right-rec", "s = A s | @error s | B"),
+    # recovery pops shifted tokens and the parser then *reduces* on the ERROR lookahead: the reduced span ends
+    # before the last token that was shifted
+    ("err-pop-then-reduce", "s = st+\nst = e | @error S\ne = e P N | N"),
+    ("err-pop-then-reduce-opt", "s = st* E\nst = A b? | @error S\nb = B C"),
+    ("err-pop-then-reduce-nested", "s = L st* R\nst = e S? | @error S\ne = N | e P N | L e R"),
 ]
 
 CURATED_BOUNDS = [
